@@ -1,1 +1,771 @@
-"""Plans for C01/C02 (filled in below)."""
+"""C01 (codec round trip) and C02 (bytes as the specification prescribes).
+
+The deciding step is the real mqtt.pdu code executed on generated inputs:
+C01 compares decode(encode(x)) with x and two encodings with each other, with
+runtime contracts (icontract, or a plain wrapper when it is not installed) on
+the six primitive functions; C02 compares every emitted byte with the
+independent reference codec and, in live sessions, with what the API
+arguments prescribe."""
+import itertools
+import random
+
+from . import cases as C
+from . import refcodec as rc
+from .plans import Plan, SessionPlan, register
+from .world import ENV   # installs the virtual reactor before mqtt is imported  # noqa: F401
+
+import mqtt
+from mqtt import pdu
+
+LEVELS = {3: mqtt.v31, 4: mqtt.v311}
+IDS = (0, 1, 2, 255, 256, 32767, 32768, 65534, 65535)
+ONE = "a"
+TWO = "é"
+THREE = "€"
+FOUR = "\U0001f600"
+
+
+def mkstr(nbytes, ch):
+    """A string of exactly nbytes UTF-8 bytes made of ch, padded with 'x'."""
+    w = len(ch.encode("utf-8"))
+    n = nbytes // w
+    s = ch * n
+    return s + "x" * (nbytes - n * w)
+
+
+def string_classes(big=True):
+    out = ["", "a", TWO, THREE, FOUR, "a" + TWO + THREE + FOUR, "/", "a/b/+/#", "\u0001", "퟿�\U0010ffff"]
+    for n in (1, 2, 127, 128, 129) + ((16383, 16384, 65534, 65535) if big else ()):
+        for ch in (ONE, TWO, THREE, FOUR):
+            out.append(mkstr(n, ch))
+    return out
+
+
+class V(object):
+    """Violation collector for codec cases."""
+
+    def __init__(self, prop):
+        self.prop = prop
+        self.v = {}
+        self.n = 0
+        self.distinct = 0
+        self.stats = {}
+
+    def bad(self, sig, msg, inp):
+        sig = "%s.%s" % (self.prop, sig)
+        if sig not in self.v:
+            self.v[sig] = (sig, msg, None, inp)
+
+    def count(self, k, n=1):
+        self.stats[k] = self.stats.get(k, 0) + n
+
+
+class CodecCase(object):
+    def __init__(self, family, fn, prop, *args):
+        self.family = family
+        self.fn = fn
+        self.prop = prop
+        self.args = args
+
+    def run(self, monitor):
+        col = V(self.prop)
+        sample = self.fn(col, *self.args)
+        r = C.CaseResult()
+        r.evals = col.n
+        r.stats = dict(col.stats)
+        r.stats["deciding"] = col.n
+        r.stats["distinct_nontrivial"] = col.distinct
+        r.violations = [(s, m, st) for (s, m, st, inp) in col.v.values()]
+        r.sample = {"kind": "codec", "family": self.family, "args": list(self.args)[:4], "example": sample}
+        if col.v:
+            first = list(col.v.values())[0]
+            r.replay = {"kind": "codec", "family": self.family, "args": list(self.args), "input": first[3]}
+        return r
+
+
+# ------------------------------------------------------------------ field access
+
+FIELDS = {
+    "CONNECT": ("clientId", "keepalive", "cleanStart", "version", "willTopic", "willMessage", "willQoS", "willRetain", "username", "password"),
+    "CONNACK": ("session", "resultCode"),
+    "PUBLISH": ("qos", "dup", "retain", "topic", "msgId", "payload"),
+    "PUBACK": ("msgId",), "PUBREC": ("msgId",), "PUBREL": ("msgId",), "PUBCOMP": ("msgId",), "UNSUBACK": ("msgId",),
+    "SUBSCRIBE": ("msgId", "topics"), "SUBACK": ("msgId", "granted"), "UNSUBSCRIBE": ("msgId", "topics"),
+    "PINGREQ": (), "PINGRES": (), "DISCONNECT": (),
+}
+
+
+def build(cls, fields):
+    o = getattr(pdu, cls)()
+    for k, v in fields.items():
+        setattr(o, k, v)
+    return o
+
+
+def _bytes(x):
+    if x is None:
+        return None
+    return x.encode("utf-8") if isinstance(x, str) else bytes(x)
+
+
+def canon(cls, obj_or_fields):
+    """Canonical projection: only what is on the wire."""
+    g = (lambda k: obj_or_fields.get(k)) if isinstance(obj_or_fields, dict) else (lambda k: getattr(obj_or_fields, k, None))
+    if cls == "CONNECT":
+        will = g("willTopic") is not None and g("willMessage") is not None
+        return {"clientId": g("clientId"), "keepalive": g("keepalive"), "cleanStart": bool(g("cleanStart")),
+                "level": (g("version") or {}).get("level"),
+                "willTopic": g("willTopic") if will else None,
+                "willMessage": (g("willMessage") if isinstance(g("willMessage"), str) else _bytes(g("willMessage"))) if will else None,
+                "willQoS": g("willQoS") if will else None, "willRetain": bool(g("willRetain")) if will else None,
+                "username": g("username"), "password": _bytes(g("password"))}
+    if cls == "CONNACK":
+        return {"session": bool(g("session")), "resultCode": g("resultCode")}
+    if cls == "PUBLISH":
+        q = g("qos")
+        return {"qos": q, "dup": bool(g("dup")) if q else False, "retain": bool(g("retain")), "topic": g("topic"),
+                "msgId": g("msgId") if q else None, "payload": _bytes(g("payload"))}
+    if cls == "SUBSCRIBE":
+        return {"msgId": g("msgId"), "topics": [(t, q) for (t, q) in g("topics")]}
+    if cls == "SUBACK":
+        return {"msgId": g("msgId"), "granted": [(a, bool(b)) for (a, b) in g("granted")]}
+    if cls == "UNSUBSCRIBE":
+        return {"msgId": g("msgId"), "topics": list(g("topics"))}
+    if cls in ("PINGREQ", "PINGRES", "DISCONNECT"):
+        return {}
+    return {"msgId": g("msgId")}
+
+
+def to_ref(cls, f):
+    """Library field assignment -> reference packet dict."""
+    if cls == "CONNECT":
+        will = f.get("willTopic") is not None and f.get("willMessage") is not None
+        return {"t": "CONNECT", "level": f["version"]["level"], "clean": bool(f["cleanStart"]), "keepalive": f["keepalive"],
+                "clientId": f["clientId"], "willTopic": f.get("willTopic") if will else None,
+                "willMessage": f.get("willMessage") if will else None, "willQoS": f.get("willQoS") or 0,
+                "willRetain": bool(f.get("willRetain")), "username": f.get("username"), "password": f.get("password")}
+    if cls == "CONNACK":
+        return {"t": "CONNACK", "session": bool(f["session"]), "rc": f["resultCode"]}
+    if cls == "PUBLISH":
+        return {"t": "PUBLISH", "qos": f["qos"], "dup": bool(f["dup"]) if f["qos"] else False, "retain": bool(f["retain"]),
+                "topic": f["topic"], "id": f.get("msgId"), "payload": f["payload"]}
+    if cls == "SUBSCRIBE":
+        return {"t": "SUBSCRIBE", "id": f["msgId"], "topics": f["topics"]}
+    if cls == "SUBACK":
+        return {"t": "SUBACK", "id": f["msgId"], "codes": [a | (0x80 if b else 0) for (a, b) in f["granted"]]}
+    if cls == "UNSUBSCRIBE":
+        return {"t": "UNSUBSCRIBE", "id": f["msgId"], "topics": f["topics"]}
+    if cls == "PINGRES":
+        return {"t": "PINGRESP"}
+    if cls in ("PINGREQ", "DISCONNECT"):
+        return {"t": cls}
+    return {"t": cls, "id": f["msgId"]}
+
+
+def from_ref(p):
+    """Reference packet dict -> expected canonical library fields."""
+    t = p["t"]
+    if t == "CONNACK":
+        return "CONNACK", {"session": p["session"], "resultCode": p["rc"]}
+    if t == "PUBLISH":
+        return "PUBLISH", {"qos": p["qos"], "dup": p["dup"], "retain": p["retain"], "topic": p["topic"], "msgId": p["id"], "payload": p["payload"]}
+    if t == "SUBACK":
+        return "SUBACK", {"msgId": p["id"], "granted": [(c & 0x7F, bool(c & 0x80)) for c in p["codes"]]}
+    return t, {"msgId": p["id"]}
+
+
+def short(x, n=48):
+    if isinstance(x, dict):
+        return {k: short(v, n) for k, v in x.items()}
+    if isinstance(x, (list, tuple)):
+        return [short(v, n) for v in list(x)[:6]]
+    if isinstance(x, (bytes, bytearray)):
+        return {"len": len(x), "head": bytes(x[:n]).hex()}
+    if isinstance(x, str) and len(x) > n:
+        return {"len_chars": len(x), "head": x[:n]}
+    return x
+
+
+# ------------------------------------------------------------------ packet generators
+
+def gen_packets(tier, seed, big):
+    """Yield (class name, field dict) over the boundary classes."""
+    rng = random.Random(seed)
+    strs = string_classes(big)
+    small = [s for s in strs if len(s.encode("utf-8")) <= 200]
+    ids = list(IDS) + [rng.randrange(65536) for _ in range(6 if tier == "quick" else 60)]
+    for cls in ("PUBACK", "PUBREC", "PUBREL", "PUBCOMP", "UNSUBACK"):
+        for i in ids:
+            yield cls, {"msgId": i}
+    for cls in ("PINGREQ", "PINGRES", "DISCONNECT"):
+        yield cls, {}
+    for s, rcode in itertools.product((False, True), (0, 1, 5, 6, 128, 255)):
+        yield "CONNACK", {"session": s, "resultCode": rcode}
+    # PUBLISH: flags x ids x topics x payload kinds, remaining length across the 1/2/3-byte boundaries
+    for qos, dup, retain in itertools.product((0, 1, 2), (False, True), (False, True)):
+        if not qos and dup:
+            continue
+        for topic in (small if qos == 1 and not dup else small[:4]):
+            for ident in (ids if (qos == 1 and topic == "a") else ids[1:4]):
+                for payload in ("", "x" * 3, TWO * 5, bytearray(b""), bytearray(b"\x00\xff\x80binary"), bytearray(range(256))):
+                    yield "PUBLISH", {"qos": qos, "dup": dup, "retain": retain, "topic": topic, "msgId": ident if qos else None, "payload": payload}
+    targets = [127, 128, 16383, 16384] + ([2097151, 2097152] if big else [])
+    for tgt in targets:
+        for d in (-1, 0, 1):
+            for qos in (0, 1):
+                topic = "t/" + TWO
+                n = tgt + d - (2 + len(topic.encode("utf-8")) + (2 if qos else 0))
+                yield "PUBLISH", {"qos": qos, "dup": False, "retain": False, "topic": topic, "msgId": 7 if qos else None, "payload": bytearray(b"\xa5") * n}
+                yield "PUBLISH", {"qos": qos, "dup": False, "retain": True, "topic": topic, "msgId": 7 if qos else None, "payload": "y" * n}
+    if big:
+        for topic in strs:
+            yield "PUBLISH", {"qos": 2, "dup": True, "retain": False, "topic": topic, "msgId": 65535, "payload": bytearray(b"p")}
+    # SUBSCRIBE / UNSUBSCRIBE / SUBACK: 1..n entries
+    for n in (1, 2, 3, 16, 64):
+        for ident in ids[:5]:
+            topics = [(small[(k * 7 + n) % len(small)] or "t", k % 3) for k in range(n)]
+            yield "SUBSCRIBE", {"msgId": ident, "topics": topics}
+            yield "UNSUBSCRIBE", {"msgId": ident, "topics": [t for (t, _) in topics]}
+            yield "SUBACK", {"msgId": ident, "granted": [((k % 3), False) if k % 4 else (0, True) for k in range(n)]}
+    if big:
+        long_topics = [(mkstr(300, ch) + str(k), k % 3) for k, ch in enumerate([ONE, TWO, THREE, FOUR] * 16)]
+        yield "SUBSCRIBE", {"msgId": 40000, "topics": long_topics}           # remaining length > 16383
+        yield "UNSUBSCRIBE", {"msgId": 40001, "topics": [t for (t, _) in long_topics]}
+        for s in strs[-8:]:
+            yield "SUBSCRIBE", {"msgId": 9, "topics": [(s, 1)]}
+            yield "UNSUBSCRIBE", {"msgId": 9, "topics": [s]}
+    # CONNECT: clean x will x willQoS x willRetain x user x password x version x keepalive
+    kas = (0, 1, 255, 256, 65535)
+    n = 0
+    for lvl, clean, will, user, pw in itertools.product((3, 4), (False, True), (False, True), (False, True), (False, True)):
+        if pw and not user:
+            continue
+        for wq, wr in (itertools.product((0, 1, 2), (False, True)) if will else [(0, False)]):
+            n += 1
+            ka = kas[n % len(kas)]
+            for cid, extra in (("c", "z"), (small[n % len(small)] or "cid", small[(n * 3) % len(small)])):
+                yield "CONNECT", {"clientId": cid, "keepalive": ka, "cleanStart": clean, "version": LEVELS[lvl],
+                                  "willTopic": ("w/" + extra) if will else None, "willMessage": ("bye " + extra) if will else None,
+                                  "willQoS": wq, "willRetain": wr, "username": ("u" + extra) if user else None,
+                                  "password": ("p" + extra) if pw else None}
+    for ka in kas:
+        yield "CONNECT", {"clientId": "k", "keepalive": ka, "cleanStart": True, "version": LEVELS[4], "willTopic": None,
+                          "willMessage": None, "willQoS": 0, "willRetain": False, "username": None, "password": None}
+    if big:
+        for s in strs[-6:]:
+            yield "CONNECT", {"clientId": s, "keepalive": 9, "cleanStart": True, "version": LEVELS[4], "willTopic": s, "willMessage": s,
+                              "willQoS": 1, "willRetain": True, "username": s, "password": mkstr(200, TWO)}
+
+
+def packets_batch(col, tier, seed, shard, nshards, mode):
+    """mode 'rt': C01 round trip; mode 'spec': C02 byte comparison."""
+    sample = None
+    seen = set()
+    for n, (cls, f) in enumerate(gen_packets(tier, seed, True)):
+        if n % nshards != shard:
+            continue
+        key = C.digest([cls, short(f, 16), len(_bytes(f.get("payload")) or b"") if cls == "PUBLISH" else 0])
+        col.n += 1
+        if key not in seen:
+            seen.add(key)
+            col.distinct += 1
+        col.count("packets/" + cls)
+        try:
+            enc1 = build(cls, f).encode()
+        except Exception as e:
+            col.bad("encode-raises/%s/%s" % (cls, type(e).__name__), "encoding a valid %s raised %r" % (cls, e), short(f))
+            continue
+        if mode == "rt":
+            enc2 = build(cls, f).encode()
+            o = build(cls, f)
+            enc3 = o.encode()
+            enc4 = o.encode()
+            if not (enc1 == enc2 == enc3 == enc4):
+                col.bad("encode-not-deterministic/%s" % cls, "two encodings of the same %s fields differ" % cls, short(f))
+            d = getattr(pdu, cls)()
+            try:
+                d.decode(bytearray(enc1))
+            except Exception as e:
+                col.bad("decode-raises/%s/%s" % (cls, type(e).__name__), "decoding an encoded %s raised %r" % (cls, e), short(f))
+                continue
+            got, want = canon(cls, d), canon(cls, f)
+            if got != want:
+                diff = [k for k in want if got.get(k) != want[k]]
+                col.bad("round-trip/%s/%s" % (cls, diff[0]), "%s.%s: decoded %r, encoded %r" % (cls, diff[0], short(got.get(diff[0])), short(want[diff[0]])), short(f))
+        else:
+            lvl = f["version"]["level"] if cls == "CONNECT" else 4
+            try:
+                ref = rc.encode(to_ref(cls, f), lvl)
+            except Exception as e:
+                col.bad("reference-cannot-encode/%s" % cls, repr(e), short(f))
+                continue
+            if enc1 != ref:
+                k = next((i for i, (a, b) in enumerate(zip(enc1, ref)) if a != b), min(len(enc1), len(ref)))
+                col.bad("bytes-differ/%s" % cls, "%s differs from the reference encoding at byte %d: %s vs %s (lengths %d/%d)"
+                        % (cls, k, enc1[max(0, k - 4):k + 6].hex(), ref[max(0, k - 4):k + 6].hex(), len(enc1), len(ref)), short(f))
+            # broker-bound direction: reference-encoded packets decode to the prescribed fields
+            p = to_ref(cls, f)
+            if p["t"] in ("CONNACK", "PUBLISH", "PUBACK", "PUBREC", "PUBREL", "PUBCOMP", "SUBACK", "UNSUBACK"):
+                name, want = from_ref(_lenient(ref, lvl))
+                d = getattr(pdu, cls)()
+                try:
+                    d.decode(bytearray(ref))
+                    got = canon(cls, d)
+                    want = canon_from(name, want)
+                    if got != want:
+                        diff = [k for k in want if got.get(k) != want[k]]
+                        col.bad("decode-differs/%s/%s" % (cls, diff[0]), "%s from the broker: field %s decoded as %r, specification says %r"
+                                % (cls, diff[0], short(got.get(diff[0])), short(want[diff[0]])), short(f))
+                    col.count("broker_packets_decoded")
+                except Exception as e:
+                    col.bad("decode-raises/%s/%s" % (cls, type(e).__name__), "decoding a well-formed %s raised %r" % (cls, e), short(f))
+        if sample is None:
+            sample = {"class": cls, "fields": short(f), "encoded_head": enc1[:24].hex(), "encoded_len": len(enc1)}
+    return sample
+
+
+def _lenient(raw, lvl):
+    p, _ = rc.decode_lenient(raw, lvl)
+    return p
+
+
+def canon_from(name, want):
+    cls = "PINGRES" if name == "PINGRESP" else name
+    return canon(cls, want)
+
+
+# ------------------------------------------------------------------ primitive sweeps (with contracts)
+
+class ContractBroken(Exception):
+    pass
+
+
+def _contracts():
+    """Runtime contracts on the real primitive functions.  icontract when
+    available, otherwise an equivalent plain wrapper."""
+    counts = {"n": 0}
+
+    def post_u16(value, result):
+        counts["n"] += 1
+        return len(result) == 2 and pdu.decode16Int(result) == int(value)
+
+    def post_len(value, result):
+        counts["n"] += 1
+        return 1 <= len(result) <= 4 and (result[-1] & 0x80) == 0 and all(b & 0x80 for b in result[:-1])
+
+    def post_str(string, result):
+        counts["n"] += 1
+        return len(result) >= 2 and result[0] * 256 + result[1] == len(result) - 2
+
+    try:
+        import icontract
+        e16 = icontract.ensure(post_u16, error=lambda value, result: ContractBroken("encode16Int(%r) -> %r" % (value, bytes(result))))(pdu.encode16Int)
+        elen = icontract.ensure(post_len, error=lambda value, result: ContractBroken("encodeLength(%r) -> %r" % (value, bytes(result))))(pdu.encodeLength)
+        estr = icontract.ensure(post_str, error=lambda string, result: ContractBroken("encodeString(len %d) -> prefix %r" % (len(string), bytes(result[:2]))))(pdu.encodeString)
+        kind = "icontract"
+    except Exception:
+        def wrap(fn, post, name):
+            def w(x):
+                r = fn(x)
+                if not post(x, r):
+                    raise ContractBroken("%s(%r)" % (name, x if not isinstance(x, str) else len(x)))
+                return r
+            return w
+        e16 = wrap(pdu.encode16Int, post_u16, "encode16Int")
+        elen = wrap(pdu.encodeLength, post_len, "encodeLength")
+        estr = wrap(pdu.encodeString, post_str, "encodeString")
+        kind = "plain wrapper"
+    return e16, elen, estr, counts, kind
+
+
+def sweep_u16(col, lo, hi):
+    e16, _, _, counts, kind = _contracts()
+    for v in range(lo, hi):
+        try:
+            enc = e16(v)
+        except ContractBroken as e:
+            col.bad("contract/encode16Int", str(e), v)
+            continue
+        if pdu.decode16Int(enc) != v or bytes(enc) != rc.enc_u16(v):
+            col.bad("u16-round-trip", "decode16Int(encode16Int(%d)) = %d, bytes %s" % (v, pdu.decode16Int(enc), bytes(enc).hex()), v)
+    col.n += hi - lo
+    col.distinct += hi - lo
+    col.count("contract_evaluations", counts["n"])
+    col.count("u16", hi - lo)
+    return {"domain": "16-bit integers", "range": [lo, hi], "contracts": kind}
+
+
+def sweep_len(col, lo, hi, step=1, contract_every=1):
+    """Remaining-length field.  The hot loop calls the real functions directly;
+    the contract wrapper is applied on every `contract_every`-th value."""
+    e16, elen, _, counts, kind = _contracts()
+    enc, dec = pdu.encodeLength, pdu.decodeLength
+    ref = rc.enc_len
+    bad = 0
+    n = 0
+    for v in range(lo, hi, step):
+        b = enc(v)
+        if dec(b) != v or bytes(b) != ref(v):
+            bad += 1
+            col.bad("varint-round-trip", "decodeLength(encodeLength(%d)) = %d, bytes %s (reference %s)" % (v, dec(b), bytes(b).hex(), ref(v).hex()), v)
+        n += 1
+    for v in range(lo, hi, max(step, contract_every)):
+        try:
+            elen(v)
+        except ContractBroken as e:
+            col.bad("contract/encodeLength", str(e), v)
+    col.n += n
+    col.distinct += n
+    col.count("contract_evaluations", counts["n"])
+    col.count("varint", n)
+    return {"domain": "remaining length", "range": [lo, hi], "step": step, "contracts": kind}
+
+
+def sweep_len_values(col, values):
+    _, elen, _, counts, kind = _contracts()
+    seen = set()
+    for v in values:
+        try:
+            b = elen(v)
+        except ContractBroken as e:
+            col.bad("contract/encodeLength", str(e), v)
+            continue
+        # decoding must also stop at the right byte when more bytes follow
+        if pdu.decodeLength(b) != v or pdu.decodeLength(bytearray(b) + b"\x81\x7f") != v or bytes(b) != rc.enc_len(v):
+            col.bad("varint-round-trip", "remaining length %d encodes as %s, decodes as %d" % (v, bytes(b).hex(), pdu.decodeLength(b)), v)
+        seen.add(v)
+    col.n += len(values)
+    col.distinct += len(seen)
+    col.count("contract_evaluations", counts["n"])
+    col.count("varint", len(values))
+    return {"domain": "remaining length (boundaries and seeded values)", "n": len(values), "contracts": kind}
+
+
+def sweep_codepoints(col, lo, hi):
+    _, _, estr, counts, kind = _contracts()
+    n = 0
+    for cp in range(lo, hi):
+        if 0xD800 <= cp <= 0xDFFF:
+            continue
+        s = chr(cp)
+        try:
+            b = estr(s)
+        except ContractBroken as e:
+            col.bad("contract/encodeString", str(e), cp)
+            continue
+        got, rest = pdu.decodeString(bytearray(b) + b"\x00\x01z")
+        if got != s or bytes(rest) != b"\x00\x01z" or bytes(b) != rc.enc_str(s):
+            col.bad("string-round-trip/codepoint", "U+%04X encodes as %s, decodes as %r" % (cp, bytes(b).hex(), got), cp)
+        n += 1
+    col.n += n
+    col.distinct += n
+    col.count("contract_evaluations", counts["n"])
+    col.count("codepoints", n)
+    return {"domain": "Unicode scalar values as one-character strings", "range": [lo, hi], "contracts": kind}
+
+
+def sweep_strings(col, seed, nrandom):
+    _, _, estr, counts, kind = _contracts()
+    rng = random.Random(seed)
+    strs = string_classes(True)
+    for _ in range(nrandom):
+        n = rng.choice([0, 1, 2, 5, 30, 127, 128, 1000])
+        strs.append("".join(chr(rng.choice([rng.randrange(0x20, 0x7f), rng.randrange(0x80, 0x800), rng.randrange(0x800, 0xD800),
+                                                  rng.randrange(0xE000, 0x10000), rng.randrange(0x10000, 0x110000)])) for _ in range(n)))
+    seen = set()
+    for s in strs:
+        raw = s.encode("utf-8")
+        if len(raw) > 65535:
+            continue
+        try:
+            b = estr(s)
+        except ContractBroken as e:
+            col.bad("contract/encodeString", str(e), short(s))
+            continue
+        got, rest = pdu.decodeString(bytearray(b) + b"tail")
+        if got != s or bytes(rest) != b"tail":
+            col.bad("string-round-trip/%d-bytes" % len(raw), "a %d-byte string decodes as %d characters, rest %r" % (len(raw), len(got), bytes(rest[:8])), short(s))
+        if bytes(b) != rc.enc_str(s):
+            col.bad("string-bytes-differ", "encodeString differs from the reference for a %d-byte string" % len(raw), short(s))
+        seen.add(s)
+    col.n += len(strs)
+    col.distinct += len(seen)
+    col.count("contract_evaluations", counts["n"])
+    col.count("strings", len(strs))
+    return {"domain": "strings at length classes 0,1,2,127,128,129,16383,16384,65534,65535 bytes x 1/2/3/4-byte characters + seeded", "n": len(strs), "contracts": kind}
+
+
+def unrepresentable(col):
+    """C02: fields that cannot be represented must raise ValueError/TypeError."""
+    cases = []
+    big = "x" * 65536
+    big2 = TWO * 32768          # 32768 characters, 65536 bytes
+    for s in (big, big2, mkstr(65536, FOUR), "y" * 70000):
+        cases.append(("PUBLISH", {"qos": 1, "dup": False, "retain": False, "topic": s, "msgId": 1, "payload": "p"}, "over-long topic"))
+        cases.append(("SUBSCRIBE", {"msgId": 1, "topics": [("ok", 0), (s, 1)]}, "over-long topic filter"))
+        cases.append(("UNSUBSCRIBE", {"msgId": 1, "topics": [s]}, "over-long topic filter"))
+        base = {"clientId": "c", "keepalive": 1, "cleanStart": True, "version": LEVELS[4], "willTopic": None, "willMessage": None,
+                "willQoS": 0, "willRetain": False, "username": None, "password": None}
+        for fld in ("clientId", "username", "password"):
+            f = dict(base)
+            f[fld] = s
+            if fld == "password":
+                f["username"] = "u"
+            cases.append(("CONNECT", f, "over-long " + fld))
+        f = dict(base)
+        f["willTopic"], f["willMessage"] = s, "m"
+        cases.append(("CONNECT", f, "over-long willTopic"))
+        f = dict(base)
+        f["willTopic"], f["willMessage"] = "t", s
+        cases.append(("CONNECT", f, "over-long willMessage"))
+    for ident in (-1, 65536, 70000, -65536, 1 << 20):
+        for cls in ("PUBACK", "PUBREC", "PUBREL", "PUBCOMP", "UNSUBACK"):
+            cases.append((cls, {"msgId": ident}, "identifier out of range"))
+        cases.append(("PUBLISH", {"qos": 1, "dup": False, "retain": False, "topic": "t", "msgId": ident, "payload": "p"}, "identifier out of range"))
+        cases.append(("SUBSCRIBE", {"msgId": ident, "topics": [("t", 0)]}, "identifier out of range"))
+        cases.append(("UNSUBSCRIBE", {"msgId": ident, "topics": ["t"]}, "identifier out of range"))
+        cases.append(("SUBACK", {"msgId": ident, "granted": [(0, False)]}, "identifier out of range"))
+        cases.append(("CONNECT", {"clientId": "c", "keepalive": ident, "cleanStart": True, "version": LEVELS[4], "willTopic": None, "willMessage": None,
+                                  "willQoS": 0, "willRetain": False, "username": None, "password": None}, "keepalive out of range"))
+    for payload in (5, 5.5, None, b"bytes", [1, 2, 3], [256], (1, 2), {"a": 1}, True, object()):
+        for qos in (0, 1):
+            cases.append(("PUBLISH", {"qos": qos, "dup": False, "retain": False, "topic": "t", "msgId": 1 if qos else None, "payload": payload}, "payload type"))
+    sample = None
+    for cls, f, what in cases:
+        col.n += 1
+        col.distinct += 1
+        col.count("unrepresentable/" + what)
+        try:
+            out = build(cls, f).encode()
+        except (ValueError, TypeError) as e:
+            if sample is None:
+                sample = {"class": cls, "what": what, "raised": type(e).__name__}
+            continue
+        except Exception as e:
+            col.bad("unrepresentable-wrong-exception/%s/%s" % (cls, type(e).__name__), "%s with %s raised %r" % (cls, what, e), short(f))
+            continue
+        col.bad("unrepresentable-emits-bytes/%s/%s" % (cls, what.replace(" ", "-")), "%s with %s encoded to %d bytes (%s...)" % (cls, what, len(out), bytes(out[:12]).hex()), short(f))
+    return sample
+
+
+def huge_publish(col, mode):
+    """The 256 MiB end of the remaining-length domain (thorough only)."""
+    topic = "t"
+    n = 268435455 - (2 + 1 + 2)
+    f = {"qos": 1, "dup": False, "retain": False, "topic": topic, "msgId": 3, "payload": bytearray(n)}
+    col.n += 2
+    col.distinct += 2
+    enc = build("PUBLISH", f).encode()
+    if enc[:5] != b"\x32\xff\xff\xff\x7f" or len(enc) != 268435455 + 5:
+        col.bad("bytes-differ/PUBLISH/max-remaining-length", "header %s length %d" % (enc[:5].hex(), len(enc)), "256 MiB payload")
+    if mode == "rt":
+        d = pdu.PUBLISH()
+        d.decode(bytearray(enc))
+        if d.msgId != 3 or d.topic != "t" or len(d.payload) != n:
+            col.bad("round-trip/PUBLISH/max-remaining-length", "decoded id %r topic %r payload %d" % (d.msgId, d.topic, len(d.payload)), "256 MiB payload")
+        del d
+    del enc
+    f["payload"] = bytearray(n + 1)
+    try:
+        build("PUBLISH", f).encode()
+        col.bad("unrepresentable-emits-bytes/PUBLISH/remaining-length-overflow", "a PUBLISH of 268435456 bytes was encoded", "256 MiB + 1")
+    except ValueError:
+        pass
+    return {"class": "PUBLISH", "remaining_length": 268435455}
+
+
+# ------------------------------------------------------------------ plans
+
+class CodecPlan(Plan):
+    counts_distinct_in_stats = True
+    mode = "rt"
+    assumptions = ["inputs are generated by the rig: exhaustive primitive domains and boundary classes, not every field combination of every packet",
+                   "reference codec lib/mqttverif/refcodec.py (validated against the worked examples of the OASIS text) is the byte oracle"]
+
+    def budget(self, tier):
+        return 120 if tier == "quick" else 1800
+
+    def min_deciding(self, tier):
+        return 100000
+
+    def primitive_cases(self, tier, seed):
+        P = self.prop
+        for lo in range(0, 65536, 8192):
+            yield CodecCase("u16-exhaustive", sweep_u16, P, lo, lo + 8192)
+        for lo in range(0, 0x110000, 0x8000):
+            yield CodecCase("codepoints-exhaustive", sweep_codepoints, P, lo, min(lo + 0x8000, 0x110000))
+        yield CodecCase("strings", sweep_strings, P, seed, 300 if tier == "quick" else 5000)
+        rng = random.Random(seed + 3)
+        vals = []
+        for b in (0, 128, 16384, 2097152, 268435456):
+            vals.extend(v for v in range(b - 3, b + 4) if 0 <= v <= 268435455)
+        vals.extend(rng.randrange(268435456) for _ in range(20000))
+        vals.extend(rng.randrange(1 << rng.randrange(1, 28)) for _ in range(20000))
+        for i in range(0, len(vals), 5000):
+            yield CodecCase("varint-sampled", sweep_len_values, P, vals[i:i + 5000])
+        if tier == "quick":
+            # the complete 1-, 2- and 3-byte domain, and every 4-byte value on a stride
+            for lo in range(0, 2097152, 131072):
+                yield CodecCase("varint-exhaustive-1to3bytes", sweep_len, P, lo, lo + 131072, 1, 64)
+            for lo in range(2097152, 268435456, 16777216):
+                yield CodecCase("varint-strided-4bytes", sweep_len, P, lo, min(lo + 16777216, 268435456), 127, 127 * 64)
+        else:
+            chunk = 1 << 21
+            for lo in range(0, 268435456, chunk):
+                yield CodecCase("varint-exhaustive", sweep_len, P, lo, lo + chunk, 1, 4096)
+
+    def packet_cases(self, tier, seed):
+        n = 16
+        for sh in range(n):
+            yield CodecCase("packets", packets_batch, self.prop, tier, seed, sh, n, self.mode)
+
+    def exhaustive(self, tier):
+        d = ["16-bit integers 0..65535", "Unicode scalar values U+0000..U+10FFFF as one-character strings",
+             "remaining length 0..2097151 (all 1-, 2- and 3-byte encodings)"]
+        if tier == "thorough":
+            d.append("remaining length 0..268435455 (complete)")
+        return d
+
+    def case_from_replay(self, d):
+        raise SystemExit("codec replays carry their input in the file: %r" % (d.get("input"),))
+
+    def shrink(self, rep, sig):
+        return rep
+
+
+@register
+class P01(CodecPlan):
+    prop = "C01"
+    mode = "rt"
+    rule = ("inputs = exhaustive primitive domains (all 16-bit integers, all Unicode scalar values, remaining lengths: complete 1-3 byte range + strided/sampled 4-byte range in quick, "
+            "complete 0..268435455 in thorough) + strings at every length class x 1/2/3/4-byte characters + packets of all 14 types over flag combinations, identifier and keepalive "
+            "boundaries, 1..64 topic entries, str and bytearray payloads placing the remaining length on both sides of the 1/2/3-byte boundaries; every input is a distinct value and "
+            "is non-trivial (it is encoded, decoded and compared); distinct_nontrivial counts distinct inputs")
+
+    def required_counters(self, tier):
+        return {"u16": 65536, "codepoints": 1112064, "varint": 2000000, "packets/PUBLISH": 500, "packets/CONNECT": 100,
+                "contract_evaluations": 1000000}
+
+    def cases(self, tier, seed):
+        for c in self.primitive_cases(tier, seed):
+            yield c
+        for c in self.packet_cases(tier, seed):
+            yield c
+        if tier == "thorough":
+            yield CodecCase("publish-256MiB", huge_publish, self.prop, "rt")
+
+
+def c02_live(A):
+    """Every packet written in a live session is byte for byte what the
+    reference encoder produces from the API arguments, the identifier on the
+    returned Deferred and the DUP flag observed."""
+    from .mon import Out
+    from .mon.conn import connect_fields_match
+    o = Out("C02")
+    for e in A.pkts:
+        p = e["pkt"]
+        if p is None:
+            o.bad("live/unparseable", "bytes written that the reference decoder cannot frame: %r" % e["raw"][:16], e)
+            continue
+        o.dec("live_packets")
+        lvl = e["level"]
+        try:
+            ref = rc.encode(p, lvl)
+        except Exception as ex:
+            o.bad("live/reference-cannot-encode/%s" % p["t"], repr(ex), e)
+            continue
+        if ref != e["raw"]:
+            o.bad("live/bytes-differ/%s" % p["t"], "%s on the wire %s, reference encoding of its own fields %s" % (p["t"], e["raw"][:12].hex(), ref[:12].hex()), e)
+        tok = e.get("token")
+        r = A.by_token.get(tok) if tok is not None else None
+        if p["t"] == "PUBLISH" and r is not None and r.op == "publish":
+            info = r.info
+            want = {"t": "PUBLISH", "qos": info["qos"], "retain": bool(info["retain"]), "topic": info["topic"], "payload": info["payload"],
+                    "dup": p["dup"], "id": r.msgId if info["qos"] else None}
+            try:
+                if rc.encode(want, lvl) != e["raw"]:
+                    o.bad("live/fields-differ/PUBLISH", "PUBLISH on the wire is not the encoding of the publish() arguments", e)
+                o.dec("live_api_compared")
+            except Exception:
+                pass
+        elif p["t"] in ("SUBSCRIBE", "UNSUBSCRIBE") and r is not None and r.op in ("subscribe", "unsubscribe"):
+            want = {"t": p["t"], "id": r.msgId, "dup": p["dup"], "topics": r.info["topics"]}
+            if rc.encode(want, lvl) != e["raw"]:
+                o.bad("live/fields-differ/%s" % p["t"], "%s on the wire is not the encoding of the call's arguments" % p["t"], e)
+            o.dec("live_api_compared")
+        elif p["t"] == "CONNECT":
+            c = A.conns[e["conn"]]
+            if c.connect_calls:
+                m = connect_fields_match(p, c.connect_calls[0]["info"])
+                if m and not c.connect_calls[0]["info"].get("invalid"):
+                    o.bad("live/fields-differ/CONNECT", m, e)
+                o.dec("live_api_compared")
+        if e["bad"] is not None and e["bad"] != "wildcard or NUL in topic name":
+            o.bad("live/nonconformant/%s" % p["t"], "%s: %s" % (p["t"], e["bad"]), e)
+    return o.result()
+
+
+@register
+class P02(CodecPlan, SessionPlan):
+    prop = "C02"
+    mode = "spec"
+    monitor = staticmethod(c02_live)
+    n_quick = 3000
+    n_thorough = 60000
+    rule = ("inputs = the C01 input space for protocol levels 3 and 4 compared byte for byte with the reference encoder, reference-encoded broker packets decoded by the library, "
+            "unrepresentable inputs (over-long strings, out-of-range identifiers/keepalives, wrong payload types), and every packet written in seeded session walks re-derived from "
+            "the API arguments (covers in-place DUP patching); distinct_nontrivial counts distinct inputs plus distinct session histories that wrote at least one packet")
+    assumptions = CodecPlan.assumptions + SessionPlan.assumptions[:2]
+
+    def required_counters(self, tier):
+        return {"packets/PUBLISH": 500, "packets/CONNECT": 100, "broker_packets_decoded": 500, "live_packets": 20000, "live_api_compared": 5000,
+                "unrepresentable/payload type": 10, "unrepresentable/over-long topic": 4}
+
+    def cases(self, tier, seed):
+        for c in self.packet_cases(tier, seed):
+            yield c
+        yield CodecCase("unrepresentable", lambda col: unrepresentable(col), self.prop)
+        rng = random.Random(seed + 3)
+        vals = [v for b in (0, 128, 16384, 2097152, 268435456) for v in range(b - 3, b + 4) if 0 <= v <= 268435455]
+        vals.extend(rng.randrange(268435456) for _ in range(20000))
+        yield CodecCase("varint-sampled", sweep_len_values, self.prop, vals)
+        for lo in range(0, 65536, 16384):
+            yield CodecCase("u16-exhaustive", sweep_u16, self.prop, lo, lo + 16384)
+        yield CodecCase("strings", sweep_strings, self.prop, seed, 300 if tier == "quick" else 3000)
+        for c in LiveWalks(self).cases(tier, seed):
+            yield c
+        if tier == "thorough":
+            yield CodecCase("publish-256MiB", huge_publish, self.prop, "spec")
+
+    def case_from_replay(self, d):
+        if d.get("kind") == "session":
+            return C.session_from_replay(d)
+        return CodecPlan.case_from_replay(self, d)
+
+    def shrink(self, rep, sig):
+        if rep.get("kind") == "session":
+            return SessionPlan.shrink(self, rep, sig)
+        return rep
+
+
+class LiveWalks(object):
+    """Session walks whose result is folded into the codec plan's counters."""
+
+    def __init__(self, plan):
+        self.plan = plan
+
+    def cases(self, tier, seed):
+        for c in SessionPlan.walk_cases(self.plan, tier, seed):
+            yield LiveCase(c)
+
+
+class LiveCase(object):
+    def __init__(self, inner):
+        self.inner = inner
+        self.family = "live-session"
+
+    def run(self, monitor):
+        r = self.inner.run(monitor)
+        r.stats = dict(r.stats)
+        r.stats["distinct_nontrivial"] = 1 if r.keys else 0
+        return r
